@@ -367,7 +367,11 @@ def shape_with_env(e, env, at=None, _depth=0):
                     # a local that is defined once and was not itself streamed stands for its initialiser: naming a sub-expression
                     # (`std::string nameStr = header.GetStringById(...); if (!nameStr.empty())`) changes nothing
                     init = _single_def_of(env, p[0][1])
-                    if init is not None:
+                    # (a value obtained by handing the stream to a helper — `n = data.SyncSize(stream)` — is a transferred value,
+                    # not a named sub-expression: it keeps its anonymous name)
+                    if init is not None and not any(
+                            x["k"] in ("Call", "OpCall") and any(is_node(a) and "Stream" in (a.get("t") or a.get("ct") or "")
+                                                                 for a in x.get("args", [])) for x in walk(init)):
                         return shape_with_env(init, env, at, _depth + 1)
                 return nm + "".join("." + c if not c.startswith("[") else c for c in p[1:])
             return render(p)
